@@ -1,17 +1,210 @@
 //! Further case kinds and queries (grown per property).
+use crate::{handles_string, interp_string, interps_string};
+use adf_bdd::adf::heuristics::Heuristic;
 use adf_bdd::adf::Adf;
+use adf_bdd::datatypes::{Term, Var};
+use adf_bdd::nogoods::{DuplicateElemination, NoGood, NoGoodStore};
 use adf_bdd::parser::AdfParser;
+use std::fmt::Write as _;
 
-pub fn formula_name(_parser: &AdfParser, _i: usize) -> String {
-    // the statement an ac fact belongs to is private to the parser; it is observed
-    // through Adf::from_parser (ADF cases) instead
-    String::new()
+pub fn formula_names(parser: &AdfParser) -> Vec<String> {
+    #[cfg(adf_obdd_verif)]
+    {
+        parser.verif_formula_names()
+    }
+    #[cfg(not(adf_obdd_verif))]
+    {
+        let _ = parser;
+        Vec::new()
+    }
 }
 
-pub fn adf_query(_id: &str, _qid: &str, q: &[String], _adf: &mut Adf, _parser: &AdfParser, _out: &mut String) {
-    panic!("unknown adf query {:?}", q);
+fn tv_terms(s: &str) -> Vec<Term> {
+    s.chars()
+        .map(|c| match c {
+            'T' => Term::TOP,
+            'F' => Term::BOT,
+            _ => Term(2),
+        })
+        .collect()
 }
 
-pub fn run_case(_id: &str, kind: &str, _rest: &[String], _lines: &[String], _out: &mut String) {
-    panic!("unknown case kind {}", kind);
+fn ng_string(ng: &NoGood, n: usize) -> String {
+    // observe a NoGood through the public update_term_vec on an all-undecided vector
+    let mut upd = false;
+    let base = vec![Term(2); n];
+    interp_string(&ng.update_term_vec(&base, &mut upd))
 }
+
+pub fn heuristic_of(name: &str) -> Heuristic<'static> {
+    match name {
+        "Simple" => Heuristic::Simple,
+        "MinModMinPathsMaxVarImp" => Heuristic::MinModMinPathsMaxVarImp,
+        "MinModMaxVarImpMinPaths" => Heuristic::MinModMaxVarImpMinPaths,
+        "Rand" => Heuristic::Rand,
+        _ => panic!("unknown heuristic {}", name),
+    }
+}
+
+pub fn adf_query(id: &str, qid: &str, q: &[String], adf: &mut Adf, _parser: &AdfParser, out: &mut String) {
+    match q[0].as_str() {
+        "stmca" => {
+            let l: Vec<Vec<Term>> = adf.stable_count_optimisation_heu_a().collect();
+            writeln!(out, "{} {} stmca {}", id, qid, interps_string(&l)).unwrap();
+        }
+        "stmcb" => {
+            let l: Vec<Vec<Term>> = adf.stable_count_optimisation_heu_b().collect();
+            writeln!(out, "{} {} stmcb {}", id, qid, interps_string(&l)).unwrap();
+        }
+        "stmng" => {
+            let l: Vec<Vec<Term>> = adf.stable_nogood(heuristic_of(&q[1])).collect();
+            writeln!(out, "{} {} stmng {}", id, qid, interps_string(&l)).unwrap();
+        }
+        "twoval" => {
+            let (s, r) = crossbeam_channel::unbounded();
+            adf.two_val_nogood_channel(heuristic_of(&q[1]), s);
+            let l: Vec<Vec<Term>> = r.iter().collect();
+            writeln!(out, "{} {} twoval {}", id, qid, interps_string(&l)).unwrap();
+        }
+        "counts" => {
+            let l = adf.formulacounts(q[1] == "1");
+            writeln!(
+                out,
+                "{} {} counts {}",
+                id,
+                qid,
+                l.iter().map(|c| format!("{}/{}", c.cmodels, c.models)).collect::<Vec<_>>().join(" ")
+            )
+            .unwrap();
+        }
+        "acs" => {
+            writeln!(out, "{} {} acs {}", id, qid, handles_string(&adf.ac)).unwrap();
+        }
+        _ => panic!("unknown adf query {:?}", q),
+    }
+}
+
+fn run_ng(id: &str, lines: &[String], out: &mut String) {
+    let mut n = 0usize;
+    let mut store: Option<NoGoodStore> = None;
+    let mut k = 0usize;
+    for line in lines {
+        let w: Vec<&str> = line.split_whitespace().collect();
+        if w.is_empty() {
+            continue;
+        }
+        match w[0] {
+            "n" => {
+                n = w[1].parse().unwrap();
+                store = Some(NoGoodStore::new(n as u32));
+            }
+            "mode" => {
+                let m = match w[1] {
+                    "none" => DuplicateElemination::None,
+                    "equiv" => DuplicateElemination::Equiv,
+                    _ => DuplicateElemination::Subsume,
+                };
+                store.as_mut().unwrap().set_dup_elem(m);
+            }
+            "add" => {
+                let ng = NoGood::from_term_vec(&tv_terms(w[1]));
+                store.as_mut().unwrap().add_ng(ng);
+            }
+            "concl" => {
+                let ng = NoGood::from_term_vec(&tv_terms(w[1]));
+                let r = store.as_ref().unwrap().conclusions(&ng);
+                writeln!(
+                    out,
+                    "{} q{} concl {}",
+                    id,
+                    k,
+                    match r {
+                        Some(x) => ng_string(&x, n),
+                        None => "CONFLICT".to_string(),
+                    }
+                )
+                .unwrap();
+                k += 1;
+            }
+            "closure" => {
+                #[cfg(adf_obdd_verif)]
+                {
+                    let t = tv_terms(w[1]);
+                    let r = store.as_ref().unwrap().verif_conclusion_closure(&t);
+                    writeln!(
+                        out,
+                        "{} q{} closure {}",
+                        id,
+                        k,
+                        match r {
+                            Some(Some(v)) => format!("Update {}", interp_string(&v)),
+                            Some(None) => "NoUpdate".to_string(),
+                            None => "Inconsistent".to_string(),
+                        }
+                    )
+                    .unwrap();
+                }
+                k += 1;
+            }
+            "conclude" => {
+                let a = NoGood::from_term_vec(&tv_terms(w[1]));
+                let b = NoGood::from_term_vec(&tv_terms(w[2]));
+                writeln!(
+                    out,
+                    "{} q{} conclude {} viol {}",
+                    id,
+                    k,
+                    match a.conclude(&b) {
+                        Some((p, v)) => format!("{}:{}", p, v as u8),
+                        None => "none".to_string(),
+                    },
+                    a.is_violating(&b) as u8
+                )
+                .unwrap();
+                k += 1;
+            }
+            "dump" => {
+                #[cfg(adf_obdd_verif)]
+                {
+                    let d = store.as_ref().unwrap().verif_dump();
+                    let s: Vec<String> = d
+                        .iter()
+                        .map(|b| {
+                            b.iter()
+                                .map(|(a, v)| {
+                                    (0..n as u32)
+                                        .map(|i| {
+                                            if a.contains(&i) {
+                                                if v.contains(&i) {
+                                                    'T'
+                                                } else {
+                                                    'F'
+                                                }
+                                            } else {
+                                                'u'
+                                            }
+                                        })
+                                        .collect::<String>()
+                                })
+                                .collect::<Vec<_>>()
+                                .join(",")
+                        })
+                        .collect();
+                    writeln!(out, "{} q{} dump {}", id, k, s.join("|")).unwrap();
+                }
+                k += 1;
+            }
+            _ => panic!("bad ng line {}", line),
+        }
+    }
+}
+
+pub fn run_case(id: &str, kind: &str, _rest: &[String], lines: &[String], out: &mut String) {
+    match kind {
+        "NG" => run_ng(id, lines, out),
+        _ => panic!("unknown case kind {}", kind),
+    }
+}
+
+#[allow(dead_code)]
+pub fn unused(_v: Var) {}
